@@ -153,15 +153,41 @@ def _indep(torch, o, p, S, get, xs, tag, seed):
     p(*xs)
 
 
-def _observer_oracle(torch, o, p, gets, xs, alpha_named):
+def _fresh_cost(o, gets):
+    """evaluation order (a): the cost right after construction, before any forward pass: it can be evaluated, finite, >= 0.
+    Whether it already back-propagates is recorded (on the pinned tree the constructors sample the coefficients under no_grad,
+    the cost is a constant until the first forward pass)"""
+    for which, get in gets.items():
+        try:
+            c = get()
+        except Exception as ex:
+            o['fails'].append(('exception:cost-right-after-construction:' + which, '%s: %s' % (type(ex).__name__, str(ex)[:200])))
+            continue
+        if not _finite_nonneg(float(c)):
+            o['fails'].append(('cost-not-finite-or-negative:right-after-construction:' + which, float(c)))
+        o.setdefault('fresh_requires_grad', {})[which] = bool(c.requires_grad)
+
+
+def _observer_oracle(torch, o, p, gets, xs, alpha_named, temp=1.0, mps_options=False):
     """the gradient sentences after observer calls: forward -> export() / summary() / get_cost -> cost -> autograd.grad
     w.r.t. the NAS coefficients WITHOUT a forward in between: same value, same (finite, non-zero) gradients as right
     after the forward pass"""
     o['observer_raised'] = []
-    for obs in ('export', 'summary', 'get_cost', 'export+summary'):
+    # evaluation ORDERS: forward -> <call> -> cost -> autograd.grad, no forward in between.  An update of the sampling options
+    # with the values already in force changes nothing; with a new temperature (a step of an annealing schedule) the cost may
+    # be re-sampled, but it still back-propagates: finite gradients, non-zero wherever they were non-zero after the forward
+    calls = ['export', 'summary', 'get_cost', 'export+summary', 'options-same', 'options-anneal']
+    for obs in calls:
         p.train()
         p(*xs)
         try:
+            if obs == 'options-same':
+                if mps_options:
+                    p.update_softmax_options(temperature=temp, hard=False, gumbel=False)
+                else:
+                    p.update_softmax_options(temperature=temp, hard=False)
+            if obs == 'options-anneal':
+                p.update_softmax_options(temperature=temp * 0.9)
             if 'export' in obs:
                 p.export()
             if 'summary' in obs:
@@ -175,9 +201,22 @@ def _observer_oracle(torch, o, p, gets, xs, alpha_named):
         for which, get in gets.items():
             S = o['specs'][which]
             c = get()
+            gn = _grads(torch, c, alpha_named)
+            if obs == 'options-anneal':
+                if not _finite_nonneg(float(c)):
+                    o['fails'].append(('cost-not-finite-or-negative:after-options-update:' + which, float(c)))
+                for n, _ in alpha_named:
+                    g0, g1 = S['grad'][n], gn[n]
+                    if g0 is None or not any(g0):
+                        continue
+                    scale = max(abs(v) for v in g0)
+                    lost = [i for i, v in enumerate(g0) if abs(v) > 2.0 ** -6 * scale and (g1 is None or g1[i] == 0 or not math.isfinite(g1[i]))]
+                    if lost:
+                        o['fails'].append(('gradient-lost-after-observer:update_softmax_options(temperature):%s' % which, {'param': n, 'cost_requires_grad': bool(c.requires_grad), 'elements': lost[:6], 'grad_after_forward': g0[:6], 'grad_after_update': None if g1 is None else g1[:6]}))
+                        break
+                continue
             if not close(float(c), Fraction(S['value']), 2.0 ** -20):
                 o['fails'].append(('cost-changes-after-observer:%s:%s' % (obs, which), {'after_forward': S['value'], 'after_observer': float(c)}))
-            gn = _grads(torch, c, alpha_named)
             for n, _ in alpha_named:
                 g0, g1 = S['grad'][n], gn[n]
                 if g0 is None or not any(g0):
@@ -186,6 +225,7 @@ def _observer_oracle(torch, o, p, gets, xs, alpha_named):
                 if g1 is None or any(not math.isfinite(v) for v in g1) or any(abs(a - b) > 2.0 ** -12 * scale for a, b in zip(g0, g1)):
                     o['fails'].append(('gradient-lost-after-observer:%s:%s' % (obs, which), {'param': n, 'cost_requires_grad': bool(c.requires_grad), 'grad_after_forward': g0[:6], 'grad_after_observer': None if g1 is None else g1[:6]}))
                     break
+    p.update_softmax_options(temperature=temp)
     p.train()
     p(*xs)
 
@@ -287,6 +327,7 @@ def sn_case(torch, seed, mname, full_cost):
         torch.manual_seed(seed)
         M = _models(torch)[mname]
         p = SuperNet(M(), input_shape=shp, cost=dict(specs), full_cost=full_cost)
+        _fresh_cost(o, {w: (lambda w=w: p.get_cost(w)) for w in names})
         ps = SuperNet(M(), input_shape=shp, cost=specs[single], full_cost=full_cost)
         combs = [(n, mod) for n, mod in p.named_modules() if isinstance(mod, SuperNetCombiner)]
         alphas = {}
@@ -352,7 +393,7 @@ def sn_case(torch, seed, mname, full_cost):
                 if not close(c2, Fraction(o['specs'][which]['value']), 2.0 ** -22):
                     o['fails'].append(('cost-depends-on-evaluation-order:' + which, {'first_read': o['specs'][which]['value'], 'read_in_order': order, 'value': c2}))
         stage = 'observers'
-        _observer_oracle(torch, o, p, {w: (lambda w=w: p.get_cost(w)) for w in names}, xs, coeffs)
+        _observer_oracle(torch, o, p, {w: (lambda w=w: p.get_cost(w)) for w in names}, xs, coeffs, temp=temp)
         stage = 'input-example'
         _example_oracle(torch, o, rng, lambda ex: SuperNet(M(), input_example=ex, cost=dict(specs), full_cost=full_cost), shp, p,
                         lambda w: {k: (lambda k=k: w.get_cost(k)) for k in names}, xs, prep=lambda w: w.update_softmax_options(temperature=temp))
@@ -569,6 +610,7 @@ def mps_case(torch, seed, mname, per_channel, zero=False):
         M = _models(torch)[mname]
         qi = lambda: get_default_qinfo((0, 2, 4, 8) if zero else (2, 4, 8), (8,))      # zero: the 0-bit precision = channel pruning
         p = MPS(M(), input_shape=(3, 8, 8), cost=dict(specs), w_search_type=st, qinfo=qi())
+        _fresh_cost(o, {w: (lambda w=w: p.get_cost(w)) for w in names})
         ps = MPS(M(), input_shape=(3, 8, 8), cost=specs[single], w_search_type=st, qinfo=qi())
         al = lambda w: [(n, q) for n, q in w.named_nas_parameters() if n.endswith('alpha') and q.requires_grad]
         o['alpha'] = _set_mps_alphas(torch, rng, [al(p), al(ps)])
@@ -614,7 +656,7 @@ def mps_case(torch, seed, mname, per_channel, zero=False):
         for which in names:
             _indep(torch, o, p, o['specs'][which], lambda: p.get_cost(which), xs, which, seed)
         stage = 'observers'
-        _observer_oracle(torch, o, p, {w: (lambda w=w: p.get_cost(w)) for w in names}, xs, al(p))
+        _observer_oracle(torch, o, p, {w: (lambda w=w: p.get_cost(w)) for w in names}, xs, al(p), mps_options=True)
         stage = 'onehot'
         _onehot_oracle(torch, o, p, {w: (lambda w=w: p.get_cost(w)) for w in names}, xs, al(p), True)
         if zero:
@@ -645,6 +687,7 @@ def odimo_case(torch, seed, mname, as_dict):
         M = _models(torch)[mname]
         kw = {'cost': {'latency': diana_latency}} if as_dict else {}
         p = ODiMO_MPS(M(), input_shape=(3, 8, 8), qinfo=get_default_qinfo((2, 8), (8,)), **kw)
+        _fresh_cost(o, {'diana_latency': ((lambda: p.get_cost('latency')) if as_dict else (lambda: p.cost))})
         al = lambda w: [(n, q) for n, q in w.named_nas_parameters() if n.endswith('alpha') and q.requires_grad]
         o['alpha'] = _set_mps_alphas(torch, rng, [al(p)])
         xs = [torch.rand(2, 3, 8, 8)]
@@ -674,7 +717,7 @@ def odimo_case(torch, seed, mname, as_dict):
         stage = 'independence'
         _indep(torch, o, p, S, get, xs, 'diana_latency', seed)
         stage = 'observers'
-        _observer_oracle(torch, o, p, {'diana_latency': get}, xs, al(p))
+        _observer_oracle(torch, o, p, {'diana_latency': get}, xs, al(p), mps_options=True)
         stage = 'onehot'
         _onehot_oracle(torch, o, p, {'diana_latency': get}, xs, al(p), False)     # ODiMO does not support hard sampling: eval() mode only
         stage = 'input-example'
